@@ -36,6 +36,10 @@ func SoloInPristineProcess(s *scn.Scenario, it SoloItem) string {
 	sim.Store(x.sim)
 	defer x.finish()
 	x.installCache()
+	if s.Cfg.NS && s.Cfg.NSRebind && s.Mode == "G" {
+		// the run re-bound its prefixes before the references were computed
+		nsMap["x"], nsMap["y"] = nsMap["y"], nsMap["x"]
+	}
 	return x.soloRun(it.Text, it.D, it.C, it.API, it.Limit).Key()
 }
 
